@@ -307,7 +307,7 @@ func runC09(c *core.Ctx) {
 	for _, fn := range c.P.SrcFuncs() {
 		core.Instrs(fn, func(in ssa.Instruction) {
 			a, ok := in.(*ssa.Alloc)
-			if !ok || core.TypeName(a.Type()) != "pwr.safeKeeperReader" || (a.Comment != "complit" && a.Comment != "new") {
+			if !ok || core.TypeName(a.Type()) != "pwr.safeKeeperReader" || !isLitAlloc(a) {
 				return
 			}
 			nc++
